@@ -743,6 +743,7 @@ def gen_classic(rng, tier, seed):
         case['pending'] = rng.random() < 0.4
     elif target == 'avdtp':
         case['frames'] = _frames(rng, AVDTP, 600, _avdtp_special)
+        case['stateful_prefix'] = rng.random() < 0.4
     else:
         case['frames'] = _frames(rng, AVCTP, 600, _avctp_special)
     return case
@@ -1027,11 +1028,26 @@ def _cl_avdtp(sim, world, ca, cv, case, frames):
     sim.loop.settle()
 
     async def ref():
-        eps = await client.discover_remote_endpoints()
+        eps = list(await client.discover_remote_endpoints())
+        # whatever the hostile frames did to the end-point (they may have configured or opened it), an Abort frees it, and it
+        # can then be configured like a fresh one
+        try:
+            await client.abort(eps[0].seid)
+        except Exception:
+            pass
+        await asyncio.sleep(0.5)
+        source = client.add_source(_codec(a2dp, avdtp, True), None)  # (a fresh local end-point each time)
+        stream = await client.create_stream(source, eps[0])
+        await stream.remote_endpoint.abort()
+        await asyncio.sleep(0.5)
         return sorted(e.seid for e in eps)
     base = sim.must(ref(), 'avdtp baseline')
     if not base:
         raise HarnessError('no endpoints')
+    if case.get('stateful_prefix'):
+        # a peer that configures and opens the stream but never connects the transport channel, then turns hostile
+        frames = [bytes.fromhex('20030404010007060000ffff0235'), bytes.fromhex('500604')] + list(frames)
+        sim.probe('stream_opened_without_transport_before_the_attack')
     for fr in frames:
         process(sim, label, client.l2cap_channel.write, fr)
     check_recursion(sim, label)
@@ -1041,7 +1057,7 @@ def _cl_avdtp(sim, world, ca, cv, case, frames):
     sim.probe('reference_requests')
     if st != 'done' or t.cancelled() or t.exception() is not None:
         why = st if st != 'done' else ('cancelled' if t.cancelled() else type(t.exception()).__name__)
-        sim.violation_once('ref', f'reference-unanswered:{label}:discover:{why}:raised={_exc(sim)}', f'AVDTP Discover after the hostile frames: {why}')
+        sim.violation_once('ref', f'reference-unanswered:{label}:discover+configure:{why}:raised={_exc(sim)}', f'AVDTP Discover, Abort, Set Configuration after the hostile frames: {why}')
         if not t.done():
             t.cancel()
     elif t.result() != base:
